@@ -238,6 +238,9 @@ fn convert_hgignore_regexp(regexp: &str, file_path: &Path) -> Result<Regex, Erro
         let mut pattern = regex::escape(&file_path.to_string_lossy());
         if !regexp.starts_with("^") {
             pattern = pattern.add("/([^/]+/)*");
+        } else {
+            // rooted at the repository: the separator after its path was missing
+            pattern = pattern.add("/");
         }
 
         if !regexp.starts_with("^") {
